@@ -277,7 +277,7 @@ def _run_cfg(prop, tier, spec, features, label, limit):
         lb = [f"{type(e).__name__}: {e}"]
     if lb:
         res["inconclusive"].append({"error": "RC11 encoder self-test failed: " + "; ".join(lb)})
-    res["queries"] += 2 * 7
+    res["queries"] += 2 * 12
     scs = family(prop, tier)
     if limit:
         # second configuration: only the programs that release a handle (the code that differs), fewest events first
@@ -332,7 +332,7 @@ def _run_cfg(prop, tier, spec, features, label, limit):
         "mir_dump_cmd": mircmd,
         "functions_symbolically_executed": sorted(set(p["fn"] for ps in templates.values() for p in ps)),
         "templates": {k: mirsym.describe(v) for k, v in templates.items()},
-        "encoder_self_test": "7 litmus variants of the release/acquire protocol (wmm/litmus.py): " + ("all verdicts as expected" if not lb else "FAILED"),
+        "encoder_self_test": "12 litmus cases with known verdicts - 7 ordering/fence variants of the release/acquire protocol, 4 compare-exchange gates, 1 plain read of the count word (wmm/litmus.py): " + ("all verdicts as expected" if not lb else "FAILED"),
         "counter_access_sites": [f"{a}: {b}" for a, b in sites],
         "scenarios": len(scs), "scenarios_hold": holds,
         "max_events": max([o.get("events") or 0 for o in outs] or [0]),
@@ -343,7 +343,7 @@ def _run_cfg(prop, tier, spec, features, label, limit):
     }
     res["assumptions"] = [
         "Engine W: RC11 memory model restricted to non-atomic/Relaxed/Acquire/Release/AcqRel accesses and fences; sb U rf acyclic",
-        "Engine W: std functions modelled by hand in wmm/mirsym.py (atomics, NonNull/ManuallyDrop/Box wrappers, Result::map/ok/unwrap_or_else, Clone of the payload = non-atomic read)",
+        "Engine W: std functions modelled by hand in wmm/mirsym.py (atomics incl. compare_exchange{,_weak} and plain reads of the count word, NonNull/ManuallyDrop/Box wrappers, drop_in_place, dealloc, mem::replace/swap, needs_drop as a scenario-wide unknown, Result::map/ok/unwrap_or_else/is_ok, Clone of the payload = non-atomic read)",
         "Engine W: other handle kinds reach the counter only through Arc's clone/drop/count (checked by the counter-access scan of the MIR dump and the funnel harnesses)",
     ]
     try:
